@@ -62,6 +62,7 @@ DEFAULT = dict(
   p_adhesion=0.0,  # geom adhesion (MuJoCo 3.13 passive contact adhesion); 0 draws no random numbers
   p_fluid_ellipsoid=0.0,  # fluidshape="ellipsoid" on body geoms; 0 draws no random numbers
   p_tendon_armature=None,  # None: p_armature/2 (historic behaviour)
+  big_tree_branch=0,  # >0: the big tree starts a new branch at its root link every this many links
 )
 
 
@@ -288,8 +289,11 @@ class Gen:
     if P["big_tree"]:
       # one extra chain b_c0..b_cK of single-hinge bodies hanging off the world
       prev = "world"
+      br = int(P.get("big_tree_branch") or 0)
       for k in range(P["big_tree"]):
         name = f"c{k}"
+        if br and k > 0 and k % br == 0:
+          prev = "c0"  # start a new branch at the root link: same tree size, far better conditioned than one chain
         specs[name] = dict(parent=prev, mocap=False, joints=["hinge"], chain=True)
         children.setdefault(prev, []).append(name)
         children.setdefault(name, [])
@@ -323,7 +327,13 @@ class Gen:
         self.feat.add("gravcomp")
       out = [ind + "<body " + " ".join(f'{k}="{v}"' for k, v in a.items()) + ">"]
       for k, jt in enumerate(sp["joints"]):
-        out.append(ind + "  " + self.joint_xml(name, jt, k))
+        js = self.joint_xml(name, jt, k)
+        if sp.get("chain") and P.get("big_tree_branch"):
+          # keep the big tree's inertia matrix well conditioned in float32 (light links far from the root hinge)
+          import re as _re
+
+          js = _re.sub(r' armature="[^"]*"', "", js).replace("/>", ' armature="0.08"/>')
+        out.append(ind + "  " + js)
       massless = (not sp["joints"]) and rng.random() < P["p_massless"]
       if sp.get("chain"):
         out.append(ind + f'  <geom name="g_{name}_0" type="capsule" size="0.03" fromto="0 0 0 0.12 0 0" contype="0" conaffinity="0"/>')
